@@ -12,7 +12,7 @@ against the executable model inside Coq, executable spec on the call / return ma
    trace) makes the spec false, i.e. is reported as a violation with the schedule so far."""
 from p_C02 import *
 
-BOUND_POOL_C03 = [1, 4, 64, 1024, 2 ** 20, 3, 100, 5000, 2 ** 33]
+BOUND_POOL_C03 = [1, 4, 64, 1024, 2 ** 20, 3, 100, 5000, 2 ** 33, 0, -1, -4, -64, -1000, -2 ** 20]
 
 
 class C03(HistProp):
@@ -22,14 +22,15 @@ class C03(HistProp):
     spec_def = "Definition chk_spec (c : list Z * list event) : bool := spec_c03 (fst c) (snd c)."
     min_collections = 3
     rule = ("scenario = real Histogram with 1-3 integer buckets, 1-3 observer threads (mostly LocalHistogram flushes of 2-4 observations, some direct "
-            "observes; all values distinct powers of two), >= 3 collections over 1-2 collector threads, one of which ends with collect, "
-            "get_sample_count, get_sample_sum after the schedule has driven the other threads to completion; schedules as for C02 (targeted "
+            "observes; all values +-2^k with distinct exponents, bounds may be negative), >= 3 collections over 1-2 collector threads, one of which ends with collect, "
+            "get_sample_count, get_sample_sum after the schedule has driven the other threads to completion; 30% of the scenarios are negative-sum histories (running sum negative, or crossing "
+            "zero, at an early collection, then further observations, collections and quiescent reads, run mostly call after call); schedules as for C02 (targeted "
             "preemption at claim / publish / flip, uniform, bursty, priority; spurious compare-exchange failures); thorough adds every schedule "
             "with <= 3 context switches of a flush against three collections.  non-trivial = at least three collections returned, a collection "
             "overlapped an observation in flight (flip inside a claim..publish window, spinning wait loop, or claim between flip and end of drain), "
             "and no thread hung; distinct = distinct scenario line")
     assumptions = ["operational reordering model (intra-call reordering constrained by release / acquire), not the axiomatic C++20 / Rust memory model",
-                   "observation values are integers (distinct powers of two): binary64 sums are exact and equal the model's Z sums",
+                   "observation values are integers (+-2^k, distinct exponents): binary64 sums are exact and equal the model's Z sums",
                    "liveness of the wait loop (a weak compare-exchange eventually stops failing spuriously, fair scheduler) is runtime behaviour: "
                    "proved is that the exit step is enabled iff the in-flight observations have published and stays enabled; the harness "
                    "watchdog reports a collector that does not return within 4000 scheduled steps",
@@ -40,16 +41,23 @@ class C03(HistProp):
         return sorted(r.sample(BOUND_POOL_C03, nb))
 
     def programs(self, r, nb):
+        self._negsum = r.random() < 0.3
+        if self._negsum:
+            return self.programs_negsum(r, nb)
         nobs = r.choice([1, 2, 2, 3])
         exps = list(range(0, 36)); r.shuffle(exps)
+        pneg = r.choice([0.0, 0.3, 0.5, 0.8])     # values are +-2^k with distinct exponents
+
+        def val():
+            return float(2 ** exps.pop()) * (-1.0 if r.random() < pneg else 1.0)
         progs, roles = [], []
         for _ in range(nobs):
             p = []
             for _ in range(r.randint(1, 3)):
                 if r.random() < 0.65:
-                    p.append(("batch", [float(2 ** exps.pop()) for _ in range(r.randint(2, 4))]))
+                    p.append(("batch", [val() for _ in range(r.randint(2, 4))]))
                 else:
-                    p.append(("obs", float(2 ** exps.pop())))
+                    p.append(("obs", val()))
             progs.append(p); roles.append("o")
         two = r.random() < 0.75
         a = r.randint(1, 3) if two else r.randint(2, 4)
@@ -62,7 +70,51 @@ class C03(HistProp):
         self._concurrent_ops = a
         return progs, roles
 
+    def programs_negsum(self, r, nb):
+        """histories whose running sum is negative (or crosses zero) at an early collection, followed by later collections and
+        quiescent reads: what was drained with a negative sum must still be there afterwards"""
+        exps = sorted(r.sample(range(0, 30), 8))
+        k = r.random()
+        if k < 0.4:
+            # negative at the first collection: -big (alone or in a batch with small positives), later positives
+            first = ("obs", -float(2 ** exps[6])) if r.random() < 0.5 else ("batch", [float(2 ** exps[0]), -float(2 ** exps[6]), float(2 ** exps[1])])
+            rest = [("obs", float(2 ** exps[2])), ("batch", [float(2 ** exps[3]), -float(2 ** exps[4])])][:r.randint(1, 2)]
+        elif k < 0.8:
+            # zero crossing: +a, collect, -b (b > a), collect, +c, collect
+            first = ("obs", float(2 ** exps[3]))
+            rest = [("obs", -float(2 ** exps[5])), ("obs", float(2 ** exps[0]))]
+        else:
+            # everything negative
+            first = ("batch", [-float(2 ** exps[1]), -float(2 ** exps[4])])
+            rest = [("obs", -float(2 ** exps[2])), ("obs", -float(2 ** exps[7]))][:r.randint(1, 2)]
+        obs = [first] + rest
+        ncol = len(obs) + r.randint(0, 1)
+        fin = r.choice([[("scount",), ("ssum",)], [("ssum",), ("scount",)], [("ssum",)]])
+        progs = [obs, [("collect",)] * max(3, ncol) + fin]
+        roles = ["o", "c"]
+        if r.random() < 0.3:
+            progs.append([("collect",)]); roles.append("c")
+        self._final = 1
+        self._concurrent_ops = max(3, ncol)
+        return progs, roles
+
+    def schedule_negsum(self, r, progs, roles, nb):
+        """observation i runs to completion, then collection i runs (mostly) to completion, ...; a few preemptions and spurious failures"""
+        segs = []
+        ncol = self._concurrent_ops
+        for i in range(max(len(progs[0]), ncol)):
+            if i < len(progs[0]):
+                segs.append((0, step_estimate(progs[0][i], nb) + r.choice([0, 0, 0, -2, -3])))
+            if i < ncol:
+                segs.append((1, 11 + 2 * nb + r.choice([0, 0, 1, 3, -4])))
+            if len(progs) > 2 and r.random() < 0.4:
+                segs.append((2, r.randint(1, 14)))
+        segs += [(0, 12), (1, 40)]
+        return segs_text(r, segs, spurious=0.02), "negative-sum"
+
     def schedule(self, r, progs, roles, nb):
+        if self._negsum:
+            return self.schedule_negsum(r, progs, roles, nb)
         F = self._final
         total = sum(step_estimate(o, nb) for p in progs for o in p)
         k = r.random()
